@@ -98,7 +98,8 @@ theorem compDispLoop_keeps (rs : List Nat) (acc : List (Option Int)) (s : State)
     have hr : r < s.heap.length := hrs r (by simp)
     simp only [compDispLoop]
     split
-    · exact ih _ _ (fun r' h' => hrs r' (by simp [h']))
+    · have k0 : CallKeeps s (s.setObj r { s.obj r with toDisplace := none }) := setObj_keeps s r _ rfl rfl rfl
+      exact k0.trans (ih _ _ (fun r' h' => by rw [k0.heap_len]; exact hrs r' (by simp [h'])))
     · rcases hch : choice (setdiff (uniqueLabels (s.obj r).labels) (acc.filterMap id)) 0 s.inp with ⟨l, i⟩
       simp only []
       generalize hs1 : (({ s with inp := i } : State).setObj r { s.obj r with toDisplace := some l }) = s1
